@@ -153,7 +153,7 @@ def impl(case):
 def decode(sx, case):
     if sx[0] == "unsupported":
         return {"model": {}, "spec": {}, "in_domain": False, "skip": True}
-    _, fi, fa, spec, wf, afi, afa, std, ext = sx
+    _, fi, fa, spec, wf, afi, afa, std, ext = sx[:9]
     model = {"text": render(case)}
     sync_m = decode_matches(fi[1]) if fi[0] == "ok" else ["err", fi[1]]
     sync_v = [SX.canon(SX.sx2j(v)) for v in fa[1]] if fa[0] == "ok" else ["err", fa[1]]
